@@ -22,6 +22,10 @@ ContainedOn(b, a) == \A env \in EnvsOf(a, b) : \A p \in Lat2 \X Lat2 : In(b, QAt
 Small2 == {p \in Prims2 : FreeVars(p) = {}} \cup Polys
 DisjU == {[k |-> "union", l |-> a, r |-> b, disjoint |-> TRUE] : a \in Small2, b \in {Tr(q, V2(-12, -12)) : q \in Small2}}
          \cup {[k |-> "union", l |-> Par(V2(4, 4), V2(8, 4), V2(4, 8)), r |-> Cir(<<A0(-8), A1(-8, "t")>>, A1(1, "k")), disjoint |-> TRUE]}   \* parameter-dependent, declared disjoint
+         \* untranslated operands with curved / slanted first operands (the declaration may select another code path in the boundary)
+         \cup {[k |-> "union", l |-> a, r |-> b, disjoint |-> TRUE] :
+                  a \in {Cir(V2(-6, -6), A0(5)), Par(V2(-11, -8), V2(-3, -6), V2(-13, 0)), Tri(V2(-10, -10), V2(-2, -8), V2(-8, -2))},
+                  b \in {Par(V2(2, 0), V2(10, 2), V2(0, 8)), Cir(V2(6, 5), A0(5)), Tri(V2(2, 2), V2(11, 4), V2(4, 11))}}
 ContC == {[k |-> "cut", l |-> a, r |-> b, contained |-> TRUE] : a \in {Par(V2(-12, -12), V2(12, -12), V2(-12, 12))}, b \in Small2}
          \cup {[k |-> "cut", l |-> Cir(V2(0, 0), A1(8, "k")), r |-> Cir(<<A0(1), A0(0)>>, A0(6)), contained |-> TRUE]}
 Transf == {Tr(a, t) : a \in PrimsG \cup {Bd(p) : p \in PrimsG}, t \in TransVecs}
